@@ -55,8 +55,8 @@ def expected(default, attr, stmt, kind):
     return access
 
 
-def refname(kind, n, upper=False):
-    r = f"operator(.o{n}.)" if kind == "operator interface" else f"e{n}"
+def refname(kind, n, upper=False, blank=False):
+    r = (f"operator (.o{n}.)" if blank else f"operator(.o{n}.)") if kind == "operator interface" else f"e{n}"
     return r.upper() if upper else r
 
 
@@ -93,7 +93,7 @@ def entity_lines(kind, n, attr, case=0):
         )
     if kind == "operator interface":
         return (
-            [f"interface operator(.{O}{n}.)", f"  module procedure opimpl{n}", "end interface"],
+            [f"interface operator{' ' if case == 4 else ''}(.{O}{n}.)", f"  module procedure opimpl{n}", "end interface"],
             [f"integer function opimpl{n}(a, b)", "  integer, intent(in) :: a, b", f"  opimpl{n} = a + b", f"end function opimpl{n}"],
         )
     raise ValueError(kind)
@@ -111,7 +111,8 @@ def module_source(default, default_pos, ents, context=0, modname="m"):
     for n, (kind, attr, stmt, stmt_pos, *rest) in enumerate(ents, 1):
         case = rest[0] if rest else 0
         s, c = entity_lines(kind, n, attr, case)
-        line = f"{stmt} :: {refname(kind, n, upper=(case == 2))}" + (sep + f"integer :: semi_v{n}" if sep else "")
+        ref = f"gb{n}" if (case == 5 and kind == "generic interface of bodies") else refname(kind, n, upper=(case == 2), blank=(case == 3))
+        line = f"{stmt} :: {ref}" + (sep + f"integer :: semi_v{n}" if sep else "")
         if stmt != "none" and stmt_pos == "before":
             spec.append(line)
         spec += s
@@ -167,7 +168,8 @@ def run_module_case(st: Stats, default, default_pos, ents, context, stratum):
     obs_all = []
     bad = 0
     for n, (kind, attr, stmt, stmt_pos, *rest) in enumerate(ents, 1):
-        want = expected(default, attr, stmt, kind)
+        names_body = bool(rest and rest[0] == 5 and kind == "generic interface of bodies")
+        want = expected(default, attr, stmt if not names_body else "none", kind)
         found = find_entity(mods[0], kind, n) if mods else []
         got = found[0].permission if len(found) == 1 else f"<{len(found)} entities>"
         obs_all.append(got)
@@ -175,10 +177,12 @@ def run_module_case(st: Stats, default, default_pos, ents, context, stratum):
             body = [p for p in list(getattr(found[0], "subroutines", [])) + list(getattr(found[0], "functions", [])) if p.name.lower() == f"gb{n}"]
             body_got = body[0].permission if len(body) == 1 else f"<{len(body)} bodies>"
             body_want = "private" if default == "private" else "public"
-            if body_got != body_want and not (default == "private" and default_pos == "late"):
+            if names_body and stmt in ("public", "private"):
+                body_want = stmt  # the access statement names the interface body itself
+            if body_got != body_want and not (default == "private" and default_pos == "late" and not (names_body and stmt in ("public", "private"))):
                 bad += 1
                 st.violation("wrong-permission", stratum, dict(kind="interface body", default=default, default_pos=default_pos if default != "none" else "-", attr="none",
-                                                                stmt="none", stmt_pos="-", generic_stmt=stmt, expected=body_want, observed=body_got, n_entities=len(ents)),
+                                                                stmt=stmt if names_body else "none", stmt_pos="-", generic_stmt=stmt if not names_body else "none", expected=body_want, observed=body_got, n_entities=len(ents)),
                              inp, body_got, body_want)
         if got != want:
             bad += 1
@@ -186,7 +190,7 @@ def run_module_case(st: Stats, default, default_pos, ents, context, stratum):
                 "wrong-permission",
                 stratum,
                 dict(kind=kind, default=default, default_pos=default_pos if default != "none" else "-",
-                     attr=attr, stmt=stmt, stmt_pos=stmt_pos if stmt != "none" else "-",
+                     attr=attr, stmt=stmt if not names_body else "none", stmt_pos=stmt_pos if (stmt != "none" and not names_body) else "-",
                      expected=want, observed=got, n_entities=len(ents), case=(rest[0] if rest else 0),
                      protected_with_access=bool(kind == "variable" and "protected" in (attr, stmt)
                                                 and (default == "private" or {attr, stmt} & {"public", "private"}))),
@@ -224,6 +228,13 @@ def single_configs(kind):
                 if case == 2 and stmt == "none":
                     continue
                 yield (kind, attr, stmt, stmt_pos, case)
+            if kind == "generic interface of bodies" and stmt in ("public", "private"):
+                # 5: the access statement names the specific procedure declared by the interface body, not the generic
+                yield (kind, attr, stmt, stmt_pos, 5)
+            if kind == "operator interface" and stmt != "none":
+                # 3: the access statement writes `operator (.x.)`, 4: the interface statement does
+                yield (kind, attr, stmt, stmt_pos, 3)
+                yield (kind, attr, stmt, stmt_pos, 4)
 
 
 DEFAULTS = [("none", "early"), ("public", "early"), ("public", "late"), ("private", "early"), ("private", "late")]
